@@ -79,6 +79,13 @@ def run_case(params: dict) -> dict:
     if offer_at is not None and rng.random() < 0.5:
         # the call is made right behind the arrival of the peer's offer (k loop steps later)
         op_sync, early_arm = 'offer', False
+    erng = random.Random(f"{seed}:C06:exec:{params['n']}")
+    # thread-pool latency (exists / remove of the local file run in the executor): abort and remove then take
+    # virtual time, and a peer message can be handled while they are in progress
+    exec_delay = erng.choice([0.0, 0.0, 0.01])
+    if offer_at is not None and op_sync == 'offer' and erng.random() < 0.5:
+        # the call starts when the peer WRITES its offer: the offer arrives while the call is in progress
+        op_sync = 'offer-written'
     # downloads: the peer refuses the queue request (PeerTransferQueueFailed) some time BEFORE the user call, possibly
     # while the client's remote-queue attempt is still in flight (FAILED with a negotiation running).  A refusal
     # that reaches the client once the call has started is a new input from the peer and outside the quantifier
@@ -316,6 +323,13 @@ def run_case(params: dict) -> dict:
             async def offer():
                 await asyncio.sleep(offer_at)
                 upl.offer_lat = 0.0
+                if op_sync == 'offer-written':
+
+                    def note_written():
+                        if sync['armed']:
+                            obs['calls_started_when_the_offer_was_written'] = obs.get('calls_started_when_the_offer_was_written', 0) + 1
+                            sync['event'].set()
+                    upl.before_offer = note_written
                 await upl._serve(None, victim.remote_path)
             w.spawn('bob', offer(), name='vf-unsolicited-offer')
         if qf_at is not None:
@@ -333,7 +347,7 @@ def run_case(params: dict) -> dict:
                 obs['queue_refusals_sent'] = obs.get('queue_refusals_sent', 0) + 1
             w.spawn('bob', refuse_queue(), name='vf-refuse-queue')
         wait = t0 + t_op - w.loop.time()
-        if op_sync == 'offer':
+        if op_sync in ('offer', 'offer-written'):
             wait = min(wait, offer_at - 0.001)       # armed before the offer is made
         if wait > 0 and not early_fired:
             await asyncio.sleep(wait)
@@ -448,7 +462,7 @@ def run_case(params: dict) -> dict:
         return {'stage': stage, 'refused': refused, 'final': victim.state.VALUE.name,
                 'frames_written': len(written)}
 
-    out = run_world(f'{seed}:C06:{params["n"]}', main, wall_timeout=120, monitors=[tm])
+    out = run_world(f'{seed}:C06:{params["n"]}', main, wall_timeout=120, monitors=[tm], exec_delay=exec_delay)
     tm.deactivate()
     if out.inconclusive:
         res['inconclusive'] = out.inconclusive
